@@ -27,6 +27,24 @@ func (x *c18Exec) arith(op token.Token, a, b c18Val, at ast.Node) c18Val {
 			r.i = a.i - b.i
 		case token.MUL:
 			r.i = a.i * b.i
+		case token.QUO, token.REM:
+			if b.i == 0 {
+				x.stop("panic", "`%s` divides by zero", x.src(at))
+			}
+			if op == token.QUO {
+				r.i = a.i / b.i
+			} else {
+				r.i = a.i % b.i
+			}
+		case token.SHL, token.SHR:
+			if b.i < 0 || b.i > 62 || a.i < 0 {
+				return c18Unk("shift `%s` is not modelled for these operands", x.src(at))
+			}
+			if op == token.SHL {
+				r.i = a.i << uint(b.i)
+			} else {
+				r.i = a.i >> uint(b.i)
+			}
 		}
 		return r
 	}
@@ -90,29 +108,47 @@ func (x *c18Exec) compare(op token.Token, a, b c18Val, at ast.Node) c18Val {
 		if a.org != c18OElem && b.org == c18OElem {
 			a, b, op = b, a, c18Flip(op)
 		}
+		if a.org == c18OElem && b.org == c18OElem {
+			return bv(c18CmpInt(op, a.i, b.i)) // the witness list is strictly ascending
+		}
 		if a.org == c18OElem {
 			if b.org != c18OEntryTag || !s.inBody {
 				return c18Unk("`%s` compares a list element with something other than the tag value found under the entry's key", x.src(at))
 			}
-			// concrete model: list [e], value v; p: v > e; q: v == e
-			member := !s.p && s.q
+			// witness list e0 < e1 < ...; rk elements are smaller than the value; e[rk] == value iff q
+			member, less := s.member(a.i), a.i < s.rk
 			switch op {
 			case token.EQL:
 				return bv(member)
 			case token.NEQ:
 				return bv(!member)
 			case token.LSS: // e < v
-				return bv(s.p)
+				return bv(less)
 			case token.GEQ:
-				return bv(!s.p)
+				return bv(!less)
 			case token.LEQ:
-				return bv(s.p || member)
+				return bv(less || member)
 			case token.GTR:
-				return bv(!s.p && !member)
+				return bv(!less && !member)
 			}
 		}
 		if !eqOp {
-			return c18Unk("`%s` orders strings", x.src(at))
+			decided := func(v c18Val) bool { return v.org == c18OConst || v.org == c18OTag }
+			if decided(a) && decided(b) && (a.org == c18OConst || b.org == c18OConst) {
+				var r bool // both strings are concrete: this is what the run on this input does
+				switch op {
+				case token.LSS:
+					r = a.s < b.s
+				case token.LEQ:
+					r = a.s <= b.s
+				case token.GTR:
+					r = a.s > b.s
+				default:
+					r = a.s >= b.s
+				}
+				return bv(r)
+			}
+			return c18Unk("`%s` orders strings that are not both decided", x.src(at))
 		}
 		if a.org == c18OEntryKey || b.org == c18OEntryKey {
 			return c18Unk("`%s` compares the entry's key, which is symbolic", x.src(at))
